@@ -42,6 +42,7 @@ import Reamber.Props.C17
 import Reamber.Props.C18
 import Reamber.Props.C06
 import Reamber.Props.C01
+import Reamber.Lemmas.PermInvSM
 
 namespace Reamber.PermInv
 
@@ -591,6 +592,89 @@ theorem write_osu_perm (R : Osu.Render) (c c' : Osu.Chart) (h : OsuChartPerm c c
   · intro b hb'; exact hs b (hps.mem_iff.mpr hb')
 
 end OsuWriter
+
+/-! ## the StepMania writer (partial) -/
+
+section SMWriter
+open Reamber.Timing Reamber.SM
+
+/-- the objects of a chart as `SMMap.write` slots them (measure, numerator, denominator, column, symbol), before the
+rows of each measure are rendered -/
+def smSlots (c : WChart) : Except Timing.Err (List Slot) :=
+  (beats defaultGrid (toTimingMap c.bpms) ((writeOrder c.notes).map (·.1))).map fun bs =>
+    ((writeOrder c.notes).zip bs).map fun ob => slotOf ob.2 ob.1.2.1 ob.1.2.2
+
+theorem writeChartRows_of_slots (c : WChart) (s : List Slot) (h : smSlots c = .ok s) :
+    writeChartRows c = (match getKeys c.chartType with
+      | none => if s.isEmpty then .ok [] else .error .other
+      | some keys => writeLoop keys s (-1) (measuresSorted s)) := by
+  unfold smSlots at h
+  cases hb : beats defaultGrid (toTimingMap c.bpms) ((writeOrder c.notes).map (·.1)) with
+  | error e => simp [hb, Except.map] at h
+  | ok bs =>
+    simp only [hb, Except.map, Except.ok.injEq] at h
+    subst h
+    unfold writeChartRows
+    simp only [hb, bind, Except.bind]
+    cases getKeys c.chartType <;> rfl
+
+/-- **SMMapSet.write, the part that is proved.**  The tempo rows of the chart are, in ANY row order, the stored form of a
+tempo-change list in C10's domain (4-beat metronome, distinct times), every object and tempo time is on the snap grid.
+For a second chart with the same notes and the same tempo rows in other row orders:
+* the slots of the objects (measure, position in the measure, column, symbol) are the same multiset — and
+  `writeChartRows` is a function of the slots (`writeChartRows_of_slots`);
+* the written `#BPMS` pairs (beat rounded to 6 decimals = bpm) are the same multiset — the positional pairing
+  `zip(bpm_beats, bpms)` that the property names pairs every tempo row with its own beat in both orders.
+
+FULL STATEMENT (not proved): the two written texts have the same by-the-book denotation.  Missing: that the rendering
+of a measure (`fillMeasure`: capped running lcm of the denominators, cell writes where the last write wins) does not
+depend on the order of the slots — true without the cap and without two objects in one cell (C03: `foldl_capLcm_eq`,
+`cells_no_collision`), not composed here; the header's other lines do not depend on the lists at all. -/
+theorem write_sm_perm_partial (t0 : Rat) (cs : List BcSnap)
+    (hwf : wfChanges cs = true) (hs : sortedSnaps cs = true) (h0 : firstAtZero cs = true)
+    (hgc : gridCompatible (grid defaultMaxDiv) cs = true) (hm : metronomeOk cs = true)
+    (hM : ∀ c ∈ cs, c.met = 4) (hd : DistinctOffsets (tmOf t0 cs)) (c c' : WChart)
+    (hb : (tmOf t0 cs).Perm (toTimingMap c.bpms)) (hbp : c.bpms.Perm c'.bpms) (hn : c.notes.Perm c'.notes)
+    (hts : ∀ t ∈ (writeOrder c.notes).map (·.1), OnGridAt (grid defaultMaxDiv) t0 cs t)
+    (htb : ∀ t ∈ c.bpms.map (·.1), OnGridAt (grid defaultMaxDiv) t0 cs t) :
+    (∃ s s', smSlots c = .ok s ∧ smSlots c' = .ok s' ∧ s.Perm s') ∧
+    (∀ (h h' : WHeader) (rest rest' : List WChart) (w w' : Written),
+      SM.write h (c :: rest) = .ok w → SM.write h' (c' :: rest') = .ok w' → w.bpms.Perm w'.bpms) := by
+  have hg : defaultGrid.toList = grid defaultMaxDiv := by simp [defaultGrid]
+  have hb' : (tmOf t0 cs).Perm (toTimingMap c'.bpms) := hb.trans (hbp.map _)
+  have hwo := writeOrder_perm hn
+  have B : ∀ (tm' : List BcOff), (tmOf t0 cs).Perm tm' → ∀ ts : List Rat,
+      (∀ t ∈ ts, OnGridAt (grid defaultMaxDiv) t0 cs t) → beats defaultGrid tm' ts = .ok (ts.map (beatAt t0 cs)) :=
+    fun tm' hp ts ht => beats_any_order defaultGrid (gridOK_grid (by decide)) t0 cs hwf hs h0 (by rw [hg]; exact hgc) hm 4 hM
+      tm' hp hd ts (by rw [hg]; exact ht)
+  have hts' : ∀ t ∈ (writeOrder c'.notes).map (·.1), OnGridAt (grid defaultMaxDiv) t0 cs t :=
+    fun t ht => hts t ((hwo.map _).mem_iff.mpr ht)
+  have htb' : ∀ t ∈ c'.bpms.map (·.1), OnGridAt (grid defaultMaxDiv) t0 cs t :=
+    fun t ht => htb t ((hbp.map _).mem_iff.mpr ht)
+  constructor
+  · have S : ∀ (cc : WChart), (tmOf t0 cs).Perm (toTimingMap cc.bpms) →
+        (∀ t ∈ (writeOrder cc.notes).map (·.1), OnGridAt (grid defaultMaxDiv) t0 cs t) →
+        smSlots cc = .ok ((writeOrder cc.notes).map fun o => slotOf (beatAt t0 cs o.1) o.2.1 o.2.2) := by
+      intro cc hcb hct
+      simp only [smSlots, B _ hcb _ hct, Except.map, List.map_map, zip_self_map]
+      rfl
+    exact ⟨_, _, S c hb hts, S c' hb' hts', hwo.map _⟩
+  · intro h h' rest rest' w w' hw hw'
+    have e : ∀ (hh : WHeader) (cc : WChart) (rr : List WChart) (ww : Written),
+        beats defaultGrid (toTimingMap cc.bpms) (cc.bpms.map (·.1)) = .ok ((cc.bpms.map (·.1)).map (beatAt t0 cs)) →
+        SM.write hh (cc :: rr) = .ok ww → ww.bpms = cc.bpms.map (fun p => (round6 (beatAt t0 cs p.1), p.2)) := by
+      intro hh cc rr ww hbb hww
+      unfold SM.write at hww
+      simp only [hbb, bind, Except.bind] at hww
+      split at hww
+      · cases hww
+      · cases hww
+        simp only [List.map_map, zip_map_self]
+        rfl
+    rw [e h c rest w (B _ hb _ htb) hw, e h' c' rest' w' (B _ hb' _ htb') hw']
+    exact hbp.map _
+
+end SMWriter
 
 /-! ## the Quaver writer -/
 
